@@ -160,7 +160,7 @@ def declare_mpint(E):
                            post={"self.packet.pos": "%s + 5 + %s" % (POS, ALEN)})],
                modifies=["self.packet.pos"], returns="int", raises={})
     E.contract(MSG + "get_mpint", requires={"pos_in_buffer": "0 <= %s and %s <= len(%s)" % (POS, POS, BUF)},
-               ensures={"buffer_unchanged": "%s == %s" % (BUF, OBUF)},
+               ensures={"buffer_unchanged": "%s == %s" % (BUF, OBUF), "pos_ok": "0 <= %s and %s <= len(%s)" % (POS, POS, BUF)},
                cases=[dict(name="well_formed", when=WF, result="tcval(%s)" % BODY,
                            post={"self.packet.pos": "%s + 4 + %s" % (POS, LEN)})],
                modifies=["self.packet.pos"], returns="int", raises={})
